@@ -308,7 +308,7 @@ def run(ctx):
                   f"{'all; plus 12000 seed-sampled trees with <= 4 leaves and depth <= 3' if thorough else 'depth <= 1 all, depth 2 capped at 900 by seed'}",
                   "leaf scale factors: all reals; leaf dimensions: all real 8-vectors; exponents: symbolic number, quantity, or constants 2, -1, 1/2",
                   f"z3 timeout {TIMEOUT_MS} ms"]
-    ctx.outside = ["infinite/NaN leaf values (symbolic reals are finite)", "complex scale factors", "values outside the definedness domain of a power (0**-1)",
+    ctx.outside = ["infinite/NaN leaf values in the solver-decided part (symbolic reals are finite): a finite list of concrete trees with a 0 / 0.0 / oo / -oo / NaN term is executed instead and reported as trivial obligations", "complex scale factors", "values outside the definedness domain of a power (0**-1)",
                    "Prefix leaves", "deeper trees"]
     ctx.trusted = ["z3", "vlib/qspec.py (the statement's compositional semantics)", "stubs listed", "SymPy Add/Mul/Pow canonicalisation of the input tree"]
     res = pmap(check_recipe, items)
@@ -339,3 +339,49 @@ def run(ctx):
                              REPLAY.format(recipe=r["recipe"], evaluate=r["evaluate"], model=r["model"], expect=r["expect"]),
                              extra={"trees": [x["name"] for x in lst[:30]]}):
                 break
+
+    concrete_specials(ctx)
+
+
+SPECIAL_SRC = r'''
+import sympy as sp
+from sympy.physics import units
+from symplyphysics import Quantity
+from sympy.physics.units.systems.si import dimsys_SI
+VALUES = {"0": sp.S.Zero, "0.0": 0.0, "oo": sp.oo, "-oo": -sp.oo, "nan": sp.nan}
+def three_s(): return Quantity(3 * units.second)
+SHAPES = {"q+3s": lambda q: q + three_s(), "3s+q": lambda q: three_s() + q, "Add(q,3s) unevaluated": lambda q: sp.Add(q, three_s(), evaluate=False),
+          "Max(q,3s)": lambda q: sp.Max(q, three_s(), evaluate=False), "Min(3s,q)": lambda q: sp.Min(three_s(), q, evaluate=False),
+          "q*5m+3s": lambda q: q * Quantity(5 * units.meter) + three_s(), "abs(q)+3s": lambda q: abs(q) + three_s()}
+def special(vname, shape):
+    """(ok, text): a term of value 0/oo/NaN metres added to / compared with 3 s must be accepted with the dimension of time"""
+    try:
+        r = Quantity(SHAPES[shape](Quantity(VALUES[vname] * units.meter)))
+        return bool(dimsys_SI.equivalent_dims(r.dimension, units.time)), f"accepted with scale {r.scale_factor}, dimension {r.dimension}"
+    except Exception as ex:
+        return False, f"raised {type(ex).__name__}: {ex}"
+'''
+
+REPLAY_SPECIAL = SPECIAL_SRC + r'''
+import sys
+ok, text = special(@VNAME@, @SHAPE@)
+print(@VNAME@, @SHAPE@, text)
+if not ok:
+    print("REPRODUCED"); sys.exit(1)
+'''
+
+
+def concrete_specials(ctx):
+    """"a term whose value is zero, infinite or NaN is compatible with any dimension": finite enumeration of concrete trees (not solver-decided)"""
+    ns = {}
+    exec(SPECIAL_SRC, ns)
+    for vname in ns["VALUES"]:
+        for shape in ns["SHAPES"]:
+            if vname == "nan" and shape.startswith(("Max", "Min")):
+                continue          # SymPy itself refuses NaN inside Min/Max
+            ok, text = ns["special"](vname, shape)
+            if ok:
+                ctx.ob(f"special:{vname}:{shape}", "discharged", nontrivial=False)
+            else:
+                ctx.violation(f"C05:special:{vname}:{shape}", f"{shape} with q = {vname} m: {text}; a zero/infinite/NaN term is compatible with any dimension (expected: time)",
+                              REPLAY_SPECIAL.replace("@VNAME@", repr(vname)).replace("@SHAPE@", repr(shape)))
